@@ -149,6 +149,9 @@ def sample_better(ctx, d, val, xs, nsamp=4000):
 
 
 def run(ctx):
+    from harness.props import c06 as _c06
+    for k in range(ctx.n(40, 600)):
+        _c06.power_probe(ctx, int(ctx.rng.integers(2 ** 31)), tight=True)
     C.run_difftest(ctx, 'test_atoms_soc.py', ctx.n(150, 3000), 'atom encodings A/M/I/E/S/Q/rsocone, bound folding, vtype vector')
     C.run_difftest(ctx, 'test_atoms_exp.py', ctx.n(120, 2500), 'atom encodings X/L/P/F/pexp/plog/KL')
     C.run_difftest(ctx, 'test_atoms_sum.py', ctx.n(80, 1500), 'summed exp/log atoms: exp(e).sum(axis) <= t, log(e).sum(axis) >= t')
@@ -213,4 +216,9 @@ def brute(ctx, d, val):
 
 
 def replay(rp):
+    if 'power_seed' in rp['case']:
+        from harness.props import c06 as _c06
+        ctx = C.Ctx('C07', 'quick', 0)
+        _c06.power_probe(ctx, rp['case']['power_seed'], tight=True)
+        return {"hits": [(h['key'], h['detail']) for h in ctx.hits], "fails": bool(ctx.hits)}
     return {"fails": True, "case": rp['case'], "note": "re-run bin/check C07 with the recorded seed; pinned cases are deterministic"}
